@@ -2,11 +2,14 @@
   C07 — excitation has the model's pitch and unit power.
 
   Theorems (ordered floor field, exact arithmetic) about the pulse logic of `Jb/Model/Vocoder.lean`
-  (`excStart`, `pulseStep`, `periodOfLf0`, `rnd`). The ring-buffer mixing law
-  (`h*pulses + (δ−h)*noise`) and the noise statistics are decided by the correspondence and by the
-  oracle on the implementation (three runs with low-pass h, δ and 0), not by a theorem.
+  (`excStart`, `pulseStep`, `periodOfLf0`, `rnd`) and about the mixed-excitation ring buffer: one call of
+  `excGet` is one overlap-add step with contribution `pulse·h + noise·(δ_centre − h)` (voiced) or the noise
+  at the centre tap (unvoiced), and an overlap-add buffer is a convolver — together: the excitation is
+  `h*pulses + (δ−h)*noise`. The noise statistics (zero mean, unit variance of one fixed pseudo-random
+  sequence) are decided by execution.
 -/
 import Jb.Proofs.Excitation
+import Jb.Proofs.Ring
 
 set_option linter.unusedSectionVars false
 
@@ -57,6 +60,26 @@ theorem period (rate : Nat) (lf0 : K) :
 
 /-- uniform deviates of the fixed LCG lie in `[0,1]` -/
 theorem lcg_range (st : RandomSt K) : 0 ≤ (rnd st).1 ∧ (rnd st).1 ≤ 1 := rnd_range st
+
+/-- **Mixed excitation, step.** One `excGet` on a buffer of length `L ≥ 1` with a low-pass of the same
+    length is one overlap-add step with the contribution `noise·(δ_{i,centre} − h[i]) + pulse·h[i]` in a
+    voiced sample and the noise at the centre tap in an unvoiced one. -/
+theorem mixed_excitation_step (e : ExcSt K) (lpf : List K) (hL : 1 ≤ e.ring.length) (hlen : lpf.length = e.ring.length) :
+    let noise := (nrandom e.random).1
+    let L := e.ring.length
+    let contrib :=
+      if e.pitchOfCurr = 0 then unvoicedContrib L noise
+      else voicedContrib L noise (pulseStep { e with random := (nrandom e.random).2 }).1 lpf
+    (excGet e lpf).1 = (ringStep e.ring contrib).1 ∧ (excGet e lpf).2.ring = (ringStep e.ring contrib).2 :=
+  excGet_is_ringStep e lpf hL hlen
+
+/-- **Mixed excitation, signal.** An overlap-add buffer convolves: output `n` is `Σ_{i<L} contrib_{n−i}[i]`,
+    i.e. `Σ_i h[i]·pulse[n−i] + noise[n−c] − Σ_i h[i]·noise[n−i]` — `h*pulses + (δ−h)*noise`. -/
+theorem mixed_excitation_convolution (L : Nat) (hL : 1 ≤ L) (contribs : List (List K)) (hc : ∀ c ∈ contribs, c.length = L)
+    (n : Nat) (hn : n < contribs.length) :
+    (ringRun (List.replicate L 0) contribs).getD n 0 =
+      (Finset.range L).sum fun i => if i ≤ n then (contribs.getD (n - i) []).getD i 0 else 0 :=
+  ringRun_conv L hL contribs hc n hn
 
 /-- The defect of the pinned commit (`>=` test): for the integer period 3 the first gap was 2. -/
 theorem pinned_first_gap_short : let p : ℚ := 3; let c : ℚ := 1
